@@ -826,8 +826,8 @@ def op_repeat(x, y):
     if is_int(x) and isinstance(y, (str, bytes, list, tuple)):
         x, y = y, x
     if isinstance(x, (str, bytes, list, tuple)) and is_int(y):
-        if y <= 0:
-            return x[:0]
+        if y <= 0 or len(x) == 0:
+            return x[:0]  # (CPython refuses counts beyond the index range even for an empty operand)
         return x * y
     raise Err("* needs a sequence and an int")
 
